@@ -122,3 +122,113 @@ def unit_xsurface_save(twin=False):
     r.assumptions += ["Find_charge / setters are not under contract; a charge that is not found (transport with different surfaces) is skipped by design",
                       "diffuse-layer totals (sum_diffuse_layer) are not under this contract"]
     return r
+
+
+def _header_ok(r, rel, q, var, mapname, setptr, n_end=True):
+    fn = A.find_function(rel, q)
+    t = text_of(rel, A.body_of(fn))
+    r.add("saved_under_n_user(Set_n_user,Set_n_user_end,new_def=false)", DISCHARGED if ("%s.Set_n_user(n_user);" % var) in t and ("%s.Set_n_user_end(n_user);" % var) in t and ("%s.Set_new_def(false);" % var) in t else FAILED, "syntactic", 0, "", kind="structural")
+    r.add("stored_in_%s[n_user]" % mapname, DISCHARGED if ("%s[n_user]=%s;" % (mapname, var)) in t else FAILED, "syntactic", 0, "", kind="structural")
+    r.add("working_pointer_released(%s(NULL))" % setptr, DISCHARGED if ("use.%s(NULL);" % setptr) in t else FAILED, "syntactic", 0, "", kind="structural")
+    return fn
+
+
+def unit_xpp_save(twin=False):
+    q = "Phreeqc::xpp_assemblage_save"
+    r = U.new_unit("C02.xpp_assemblage_save.every_phase_gets_its_solved_amount", MS, q, A.find_function(MS, q))
+    fn = _header_ok(r, MS, q, "temp_pp_assemblage", "Rxn_pp_assemblage_map", "Set_pp_assemblage_ptr")
+    k = loop_ordinal(fn, MS, init_text="intj=0", cond_text="j<count_unknowns")
+    c = ctx(functional=("Find",))
+    f, ex, its, info = U.run_loop_isolated(MS, q, k, ctx=c)
+    PP = hdr.define_value(GS, "PP")
+    np_ = no = 0
+    for s in live(its, ("run", "cont")):
+        xj = vec_elem(ex, s, "x", tm.sym("iter_j", "I"))
+        ispp = tm.eq(fld0(ex, s, "type", "I", xj), tm.num(PP, "I"))
+        evs = U.iter_events(s)
+        sets = [e for e in evs if e.name.endswith("Set_moles")]
+        if B.z3_prove(list(s.pc), ispp)[0] == "proved":
+            np_ += 1
+            finds = [e for e in evs if e.name.endswith("::Find")]
+            okf = len(finds) == 1 and fld0(ex, s, "pp_assemblage_comp_name", "P", xj) in tm.subterms(tm.and_(*[tm.eq(a, a) for a in finds[0].args if hasattr(a, "op")] or [tm.TRUE])) or (len(finds) == 1 and "pp_assemblage_comp_name" in repr(finds[0].args))
+            r.add("phase.component_found_by_the_unknown's_own_name", DISCHARGED if okf else FAILED, "trace", 0, repr([e.args for e in finds])[:160], kind="trace")
+            want = fld0(ex, s, "moles", "R", xj)
+            okm = len(sets) == 1 and finds and sets[0].recv is finds[0].result and (sets[0].args[0] is want) and not twin
+            r.add("phase.saved_moles==solved_moles_of_the_unknown", DISCHARGED if okm else FAILED, "trace", 0, repr([e.args for e in sets])[:160], kind="trace")
+            dl = [e for e in evs if e.name.endswith("Set_delta")]
+            r.add("phase.pending_delta_cleared", DISCHARGED if len(dl) == 1 and tm.isnum(dl[0].args[0]) and dl[0].args[0].args[0] == 0 else FAILED, "trace", 0, "", kind="trace")
+        elif B.z3_prove(list(s.pc), tm.not_(ispp))[0] == "proved":
+            no += 1
+            r.add("other_unknowns_touch_nothing", DISCHARGED if not sets else FAILED, "trace", 0, "", kind="frame")
+    r.add("reach.loop", DISCHARGED if np_ and no else UNDECIDED, "symex", 0, "%d/%d" % (np_, no), kind="vacuity")
+    r.assumptions += ["cxxPPassemblage::Find(name) returns the component of that name (not under contract)", "text anchors for the three header obligations"]
+    return r
+
+
+def unit_xgas_save(twin=False):
+    q = "Phreeqc::xgas_save"
+    r = U.new_unit("C02.xgas_save.components_get_solved_moles_pressure_fugacity", MS, q, A.find_function(MS, q))
+    fn = _header_ok(r, MS, q, "temp_gas_phase", "Rxn_gas_phase_map", "Set_gas_phase_ptr")
+    k = loop_ordinal(fn, MS, init_text="size_ti=0", cond_text="i<temp_gas_phase.Get_gas_comps().size()")
+    c = ctx(functional=("phase_bsearch", "Get_gas_comps", "Get_phase_name", "c_str"))
+    f, ex, its, info = U.run_loop_isolated(MS, q, k, ctx=c)
+    n = 0
+    for s in live(its, ("run", "cont")):
+        n += 1
+        evs = U.iter_events(s)
+        ph = [e.result for e in evs if e.name.endswith("phase_bsearch")]
+        if len(ph) != 1:
+            r.add("component.phase_looked_up_once", FAILED, "trace", 0, ""); continue
+        P = ph[0]
+        get = lambda nm: [e.args[0] for e in evs if e.name.endswith("::" + nm)]
+        mx, ps, phi = fld0(ex, s, "moles_x", "R", P), fld0(ex, s, "p_soln_x", "R", P), fld0(ex, s, "pr_phi", "R", P)
+        PR = local(info, s, "PR")
+        isPR = B.z3_prove(list(s.pc), tm.to_bool(PR))[0] == "proved"
+        r.add("component.moles==phase.moles_x", DISCHARGED if get("Set_moles") == [mx] else FAILED, "trace", 0, repr(get("Set_moles"))[:100], kind="trace")
+        r.add("component.pressure==phase.p_soln_x", DISCHARGED if get("Set_p") == [ps] else FAILED, "trace", 0, repr(get("Set_p"))[:100], kind="trace")
+        fs = get("Set_f"); ph_ = get("Set_phi")
+        if isPR:
+            okphi = ph_ == [phi]
+            okf = len(fs) == 1 and B.sympy_equal(fs[0], ps * phi if not twin else ps)[0]
+        else:
+            okphi = len(ph_) == 1 and tm.isnum(ph_[0]) and ph_[0].args[0] == 1
+            okf = len(fs) == 1 and B.sympy_equal(fs[0], ps)[0]
+        r.add("component.phi(%s)" % ("Peng-Robinson" if isPR else "ideal=1"), DISCHARGED if okphi else FAILED, "trace", 0, repr(ph_)[:100], kind="trace")
+        r.add("component.fugacity==p*phi(%s)" % ("Peng-Robinson" if isPR else "ideal"), DISCHARGED if okf else FAILED, "sympy", 0, repr(fs)[:100])
+    r.add("reach.loop", DISCHARGED if n >= 2 else UNDECIDED, "symex", 0, "%d" % n, kind="vacuity")
+    r.assumptions += ["phase_bsearch finds the phase of the component's name (not under contract)"]
+    return r
+
+
+def unit_xexchange_save(twin=False):
+    q = "Phreeqc::xexchange_save"
+    r = U.new_unit("C02.xexchange_save.sites_get_sorbed_amounts_and_charge", MS, q, A.find_function(MS, q))
+    fn = _header_ok(r, MS, q, "temp_exchange", "Rxn_exchange_map", "Set_exchange_ptr")
+    # inner loop: every species of the site's master adds its elements x moles and its charge x moles
+    k = loop_ordinal(fn, MS, init_text="j=0", cond_text="j<species_list.size()")
+    f, ex, its, info = U.run_loop_isolated(MS, q, k, ctx=ctx())
+    hit = miss = 0
+    for s in live(its, ("run", "cont")):
+        data = tm.select(entry_arr(ex, s, ("f", "#vdata", "P")), tm.app("fld:species_list", (THIS,), "P"))
+        ent = data + tm.sym("iter_j", "I")
+        sp = fld0(ex, s, "s", "P", ent)
+        xi = vec_elem(ex, s, "x", local(info, s, "i"))
+        mine = tm.eq(fld0(ex, s, "master_s", "P", ent), fld0(ex, s, "s", "P", tm.select(entry_arr(ex, s, ("m", "P")), tm.select(entry_arr(ex, s, ("f", "#vdata", "P")), tm.app("fld:master", (xi,), "P")), tm.num(0, "I"))))
+        adds = [e for e in U.iter_events(s) if e.name.endswith("add_elt_list")]
+        ch = local(info, s, "charge")
+        if B.z3_prove(list(s.pc), mine)[0] == "proved":
+            hit += 1
+            m, z = fld0(ex, s, "moles", "R", sp), fld0(ex, s, "z", "R", sp)
+            oka = len(adds) == 1 and adds[0].args[-1] is m
+            r.add("species_of_the_site.elements_added_x_moles", DISCHARGED if oka else FAILED, "trace", 0, repr([e.args for e in adds])[:160], kind="trace")
+            U.discharge_eq_real(r, "species_of_the_site.charge+=moles*z", list(s.pc), ch, tm.sym("iter_charge", "R") + m * (z if not twin else tm.num(1)))
+        elif B.z3_prove(list(s.pc), tm.not_(mine))[0] == "proved":
+            miss += 1
+            r.add("other_species_add_nothing", DISCHARGED if not adds and ch is tm.sym("iter_charge", "R") else FAILED, "trace", 0, "", kind="frame")
+    r.add("reach.species_loop", DISCHARGED if hit and miss else UNDECIDED, "symex", 0, "%d/%d" % (hit, miss), kind="vacuity")
+    t = text_of(MS, fn)
+    r.add("site.la_saved_from_its_master_species", DISCHARGED if "xcomp.Set_la(x[i]->master[0]->s->la);" in t else FAILED, "syntactic", 0, "", kind="structural")
+    r.add("site.charge_and_totals_saved", DISCHARGED if "xcomp.Set_charge_balance(charge);" in t and "xcomp.Set_totals(elt_list_NameDouble());" in t else FAILED, "syntactic", 0, "", kind="structural")
+    r.add("site.workspace_cleared_per_site", DISCHARGED if "count_elts=0;paren_count=0;charge=0.0;" in t else FAILED, "syntactic", 0, "", kind="structural")
+    r.assumptions += ["add_elt_list / elt_list_NameDouble are under C02.*.formula_workspace units", "text anchors for the site-level obligations"]
+    return r
